@@ -75,7 +75,7 @@ C02Self(n, b1, p, b2) ==
 \* a build counts when what it wrote is a valid encoding (RawCopy writes caller-supplied raw data unchecked)
 ValidEncoding(n, x) == LET mp == ParseCall(n, x.res.v.b, 0, x.kw) IN ~IsOOM(mp) /\ mp.ok /\ Tell(mp.s) = Len(x.res.v.b)
 C05Exact(n, z, x) ==
-    Tri(z.res.ok /\ x.res.ok /\ ~AnyNode(n, {"ProcessXor", "ProcessRotateLeft", "NullStripped", "Seek", "RestreamData"})
+    Tri(z.res.ok /\ x.res.ok /\ ~AnyNode(n, {"ProcessXor", "ProcessRotateLeft", "NullStripped", "Seek", "Pointer", "RestreamData"})
         /\ (x.op = "build" /\ AnyNode(n, {"RawCopy"}) => ValidEncoding(n, x)),
         ~z.res.v.neg /\ VInt(Advance(x)) = z.res.v)
 \* ... and fails only with SizeofError
@@ -195,4 +195,15 @@ C16History(eager, lz) ==
                           [] lz.kind = "array" -> eager.res.v.xs[h.i]
                           [] OTHER -> eager.res.v
               IN h.ok /\ ValEq(h.v, ev) /\ h.pa = h.pb)
+
+\* C17  results do not depend on call history, schedule or entry point.
+\* identical calls (same construct, operation, input, keywords) at two points of a history / in a schedule and alone
+C17Same(a, b) == Tri(TRUE, a.res.ok = b.res.ok /\ a.res.err = b.res.err /\ (a.res.ok => ValEq(a.res.v, b.res.v) /\ a.res.p - a.start = b.res.p - b.start))
+\* entry points: values (parse family) or bytes (build family) agree; positions are entry-point specific
+C17Entry(a, b) == Tri(TRUE, a.res.ok = b.res.ok /\ (a.res.ok => ValEq(a.res.v, b.res.v)) /\ (~a.res.ok => a.res.err = b.res.err))
+\* parse_stream at another starting offset: equal values, unless the construct observes absolute positions
+C17Offset(n, a, b) == Tri(~AnyNode(n, {"Tell", "RawCopy", "Pointer", "Seek", "OffsettedEnd"}),
+                          a.res.ok = b.res.ok /\ a.res.err = b.res.err /\ (a.res.ok => ValEq(a.res.v, b.res.v) /\ a.res.p - a.start = b.res.p - b.start))
+\* construct objects are not mutated by use: structural digests of the object graphs of the pool before and after a call
+C17Frozen(x) == Tri(TRUE, x.before = x.after)
 =============================================================================
